@@ -135,6 +135,13 @@ theorem verifyLayers_of_chain (F : FOps α) (N : Nat) (inp : VInput α D) (roots
     rw [verifyLayer_of_LayerOk F N inp roots depth st st1 hl (hc depth (Nat.le_refl _) (by omega)) hp]
     exact ih (fun d h1 h2 => hc d (by omega) (by omega))
 
+/-- an empty chain does not depend on the folding roots -/
+theorem Chain.zero_roots (F : FOps α) (N : Nat) (inp : VInput α D) (roots roots' : List α)
+    {depth : Nat} {st st' : VState α} (h : Chain F N inp roots 0 depth st st') :
+    Chain F N inp roots' 0 depth st st' := by
+  cases h
+  exact Chain.nil _ _
+
 /-- degree bookkeeping along a chain: the bound is divisible by the folding factor at every layer -/
 theorem Chain.maxDeg (F : FOps α) (N : Nat) (inp : VInput α D) (roots : List α)
     {count depth : Nat} {st st' : VState α} (h : Chain F N inp roots count depth st st') :
@@ -262,5 +269,48 @@ theorem verify_ok (F : FOps α) [BEq D] (cc : Bool) (hashRem : List α → D) (o
               exact verifyLayers_ok F o.folding inp _ _ 0 _ stL hL
             · exact absurd h (by simp)
             · exact absurd h (by simp)
+
+/-- `FriVerifier::new` raises no `DegreeTruncation` when the bound is divisible at every commitment but the last -/
+theorem newChecks_of_div (N total : Nat) :
+    ∀ (k depth m : Nat), (∀ j, j < k → depth + j ≠ total - 1 → (m / N ^ j) % N = 0) →
+      newChecks N total k depth m = none
+  | 0, _, _, _ => rfl
+  | k + 1, depth, m, h => by
+    simp only [newChecks]
+    have h0 : ¬ (depth ≠ total - 1 ∧ m % N ≠ 0) := by
+      intro ⟨h1, h2⟩
+      have := h 0 (by omega) (by simpa using h1)
+      simp at this
+      exact h2 this
+    simp only [h0, ↓reduceIte]
+    apply newChecks_of_div N total k (depth + 1) (m / N)
+    intro j hj hne
+    have := h (j + 1) (by omega) (by omega)
+    rwa [Nat.pow_succ, Nat.mul_comm, ← Nat.div_div_eq_div_mul] at this
+
+/-- the converse of `verify_ok` (for one partition and with the layer commitments present) -/
+theorem verify_of_checks (F : FOps α) [BEq D] (cc : Bool) (hashRem : List α → D) (o : Opts) (inp : VInput α D)
+    (hd : nextPow2 (inp.maxPolyDegree + 1) * o.blowup ≠ 0)
+    (hok : F.rootOk (Nat.log2 (nextPow2 (inp.maxPolyDegree + 1) * o.blowup)) = true)
+    (hal : inp.alphas.length = inp.commitments.length)
+    (hnew : newChecks o.folding inp.commitments.length inp.commitments.length 0 (inp.maxPolyDegree + 1) = none)
+    (hlen : inp.evaluations.length = inp.positions.length)
+    (hp : inp.numPartitions = 1)
+    (hcm : ∀ d, d < numFriLayers o (nextPow2 (inp.maxPolyDegree + 1) * o.blowup) →
+      (inp.commitments[d]?).isSome)
+    (stL : VState α)
+    (hchain : Chain F o.folding inp (foldingRoots F o inp)
+      (numFriLayers o (nextPow2 (inp.maxPolyDegree + 1) * o.blowup)) 0 (initState F o inp) stL)
+    (hrem : verifyRemainder F cc hashRem inp
+      (numFriLayers o (nextPow2 (inp.maxPolyDegree + 1) * o.blowup)) stL = .ok ()) :
+    verify F cc hashRem o inp = .ok () := by
+  have hl := verifyLayers_of_chain F o.folding inp (foldingRoots F o inp) hp _ 0 _ stL hchain
+    (fun d _ h2 => hcm d (by omega))
+  unfold verify
+  simp only [hd, ↓reduceIte, hok, Bool.not_true, Bool.false_eq_true, hal, ne_eq, not_true_eq_false, hnew, hlen]
+  unfold foldingRoots initState at hl
+  simp only at hl
+  rw [hl]
+  exact hrem
 
 end WinterProofs.C05
